@@ -58,6 +58,7 @@ fn main() {
         "C17" => c17::run(&mut run),
         "C18" => c18::run(&mut run),
         "C18CHILD" => { c18::child(&mut run); return; }
+        "C18INVENTORY" => { c18::print_inventory(); return; }
         "C19" => c19::run(&mut run),
         "C16" => c16::run(&mut run),
         "C13" => c13::run(&mut run),
